@@ -175,6 +175,7 @@ class World(object):
         self.pool["other-conn"] = self.other_lent
         self.pool["forged-os"] = ("os", id(type(os)), id(os))
         self.legit = set()        # id_packs the victim really lent to this peer
+        self.lent_count = {}      # id_pack -> references lent and not yet handed back (the peer's own books)
         self.snap = self.svc.snapshot()
         self.ended = None
         self.peer.on_request = self.answer_nested
@@ -238,6 +239,9 @@ class World(object):
         lab, v = boxed
         if lab == R.L_REMOTE_REF and isinstance(v, tuple) and len(v) == 3:
             self.legit.add(v)
+            self.lent_count[v] = self.lent_count.get(v, 0) + 1
+            if self.role_of(v) == "stale":          # lent again after a release: live once more
+                del self.pool["stale"]
             if self.role_of(v) is None and len(self.pool) < 9:
                 self.pool[how] = v
         elif lab == R.L_TUPLE and isinstance(v, tuple):
@@ -262,7 +266,8 @@ class World(object):
                 break
             if m[0] == R.REQUEST:
                 rep = self.answer_nested(p, m[1], m[2])
-                p.send_payload((rep[0], m[1], rep[1]))
+                if rep is not None:
+                    p.send_payload((rep[0], m[1], rep[1]))
                 p.pump()
                 continue
             resp.append(m)
@@ -301,10 +306,13 @@ class World(object):
                         viol.append(("foreign-or-stale-id-accepted:%s" % idrole, "%r answered with %r" % (meta, m[2])))
                     self.harvest(m[2], "ref:%s:%s" % (meta.get("h"), meta.get("name")))
                     if meta.get("h") == "del" and meta.get("label") == 3 and idrole and idrole.startswith("ref:"):
-                        # released: the id is stale now
-                        idp = self.pool.pop(idrole)
-                        self.legit.discard(idp)
-                        self.pool["stale"] = idp
+                        # one reference handed back; the id is stale once every lent reference is
+                        idp = self.pool[idrole]
+                        self.lent_count[idp] = self.lent_count.get(idp, 0) - 1
+                        if self.lent_count[idp] <= 0:
+                            self.pool.pop(idrole)
+                            self.legit.discard(idp)
+                            self.pool["stale"] = idp
         else:
             # replies / exceptions / unknown kinds from the peer must not produce responses
             if resp and not self.ended:
@@ -321,7 +329,7 @@ class World(object):
         if not c.closed:
             for idp, slot in c._local_objects._dict.items():
                 tbl.append((self.role_of(idp) or "?", slot[1]))
-        return (self.ended, tuple(sorted(tbl)), tuple(sorted(self.pool)), tuple(sorted(self.role_of(i) or "?" for i in self.legit)),
+        return (self.ended, tuple(sorted(tbl)), tuple(sorted(self.pool)), tuple(sorted((self.role_of(i) or "?", self.lent_count.get(i, 0)) for i in self.legit)),
                 len(c._proxy_cache._dict) if not c.closed else -1)
 
     def close(self):
